@@ -4,7 +4,7 @@
    the pipe of the trees of A and of B is a parser statement (the pipe is the
    loosest operator): C03. *)
 From Coq Require Import Floats Permutation.
-From JM Require Import Model.Base Model.Num Model.Value Model.Interp Model.Api
+From JM Require Import Model.Base Model.Num Model.Value Model.JsonText Model.Lexer Model.Interp Model.Api
      Spec.Grammar Spec.Semantics Proofs.ValueFacts Proofs.InterpRefine Proofs.Contexts Proofs.CtxFacts
      Proofs.ParserComplete Proofs.LexText Proofs.LexAdj Proofs.LexExact Proofs.PipeText Inst.FloatNum Run.Checker.
 
@@ -80,3 +80,29 @@ Proof. vm_compute. reflexivity. Qed.
 Example C15_pipe_text_example :
   (bytes_eqb (pipe_text (str "a[0]") (str "b | c")) (str "a[0] | b | c"))%bool = true.
 Proof. vm_compute. reflexivity. Qed.
+
+(* the premises of C15_pipe_from_bytes are met by concrete texts: A = "a[ 00 ]", B = "b | c"
+   (B holds a pipe itself), with their readings and trees *)
+Definition mtext15 (v : @value FloatNum) : bytes := match json_marshal v with Some t => t | None => [] end.
+Definition ea15 : @expr FloatNum := EIndex (Some (EIdent false (str "a"))) 0.
+Definition eb15 : @expr FloatNum := EPipe (EIdent false (str "b")) (EIdent false (str "c")).
+Definition la15 : list (tokType * bytes) := [(tUnquotedIdentifier, str "a"); (tLbracket, str "["); (tNumber, str "00"); (tRbracket, str "]")].
+Definition lb15 : list (tokType * bytes) := [(tUnquotedIdentifier, str "b"); (tPipe, str "|"); (tUnquotedIdentifier, str "c")].
+Example C15_pipe_from_bytes_premises :
+  Lex (str "a[ 00 ]") la15 /\ reads_as la15 (render mtext15 ea15) /\ wp ea15 = true /\ npos ea15 = true /\
+  Lex (str "b | c") lb15 /\ reads_as lb15 (render mtext15 eb15) /\ wp eb15 = true /\ npos eb15 = true.
+Proof.
+  assert (HA : Lex (str "a[ 00 ]") la15).
+  { apply lex_exact. exists (match tokenize (str "a[ 00 ]") with Ok ts => removelast ts | _ => [] end). split; vm_compute; reflexivity. }
+  assert (HB : Lex (str "b | c") lb15).
+  { apply lex_exact. exists (match tokenize (str "b | c") with Ok ts => removelast ts | _ => [] end). split; vm_compute; reflexivity. }
+  assert (RA : reads_as la15 (render mtext15 ea15)).
+  { unfold reads_as, la15. set (r := render mtext15 ea15). vm_compute in r. subst r.
+    repeat (apply Forall2_cons; [split; [reflexivity | vm_compute; first [exact I | reflexivity]] |]). apply Forall2_nil. }
+  assert (RB : reads_as lb15 (render mtext15 eb15)).
+  { unfold reads_as, lb15. set (r := render mtext15 eb15). vm_compute in r. subst r.
+    repeat (apply Forall2_cons; [split; [reflexivity | vm_compute; first [exact I | reflexivity]] |]). apply Forall2_nil. }
+  assert (W : (wp ea15 && npos ea15 && wp eb15 && npos eb15)%bool = true) by (vm_compute; reflexivity).
+  apply andb_true_iff in W as [W W4]. apply andb_true_iff in W as [W W3]. apply andb_true_iff in W as [W1 W2].
+  repeat split; assumption.
+Qed.
